@@ -21,7 +21,8 @@ RULE = ("W1 (library-generated): every createOffer/createAnswer/localDescription
         "session-level vs media-level ice/fingerprint/setup, unknown attributes, rtcp-fb:*, extmap direction, extra candidate "
         "extensions, LF vs CRLF): if the parser accepts t then s1=str(parse(t)), s2=str(parse(s1)) and s1==s2; neither step may "
         "raise. Candidate lines and the signalling helper round-trip exactly. Distinct/non-trivial = distinct normalised "
-        "attribute shapes of the texts.")
+        "attribute shapes of the texts."
+        " W1 also contains the episode 'valid offer, then an offer with no common codec (refused), then createAnswer()': what the library generates afterwards must round-trip too.")
 ASSUMPTIONS = [
     "connection addresses are generated as IP literals (one dedicated stratum probes a host name)",
     "W3: the parser rejecting a mutated text (any exception) is not a violation; only accepted texts are judged",
